@@ -1,6 +1,7 @@
 import OVM.Kernel.Frames
 import OVM.Props.C08
 import OVM.Refine.CellCheck
+import OVM.Refine.GlobalBU2
 /-
   C11 — construction validates.
   Proved here for every mesh state and every argument list:
@@ -191,10 +192,29 @@ theorem findEdgeScan_complete (k : Kernel) (a b e : Nat) (he : e < k.nE) (hl : k
     ends at the requested vertex -/
 theorem findEdgeBU_sound (k : Kernel) (a b e : Nat) (h : k.findEdgeBU a b = some e) :
     ∃ he ∈ k.outOf a, k.toV he = b ∧ e = he / 2 := by
-  unfold findEdgeBU at h
-  simp only [Option.map_eq_some_iff] at h
-  obtain ⟨he, hf, rfl⟩ := h
-  exact ⟨he, List.mem_of_find?_eq_some hf, by simpa using List.find?_some hf, rfl⟩
+  obtain ⟨x, hx, ht, he⟩ := findEdgeBU_some h
+  exact ⟨x, hx, ht, he.symm⟩
+
+/-- **the duplicate search of `add_edge` is independent of the vertex incidences** (since 8c92632): under the cache
+    invariant of the vertex kind, for an existing vertex `a`, the search through `outgoing_hes_per_vertex_[a]` and the
+    linear scan over the live edges return the same edge — the live edge joining `a` and `b` (either direction) with
+    the smallest index — or both nothing.  (Before the fix the cached search returned the first match in CACHE order:
+    /verif/findings/C12-add-edge-duplicate-order.md.) -/
+theorem add_edge_search_independent_of_incidences (k : Kernel) (hV : CacheInvV k) (hb : k.vBU = true)
+    (a b : Nat) (ha : a < k.nV) : k.findEdgeBU a b = k.findEdgeScan a b :=
+  Global.findEdgeBU_eq_scan hV hb ha b
+
+/-- … hence two meshes that differ only in their bottom-up caches / enabled kinds (`Global.SameDefs`) answer
+    `add_edge` with the same handle and the same resulting mesh -/
+theorem add_edge_result_independent_of_incidences (k1 k2 : Kernel) (s : Global.SameDefs k1 k2) (w1 : WF k1) (w2 : WF k2)
+    (a b : Nat) (ha : a < k1.nV) (dup : Bool) :
+    (k1.addEdge a b dup).2 = (k2.addEdge a b dup).2 ∧ Global.SameDefs (k1.addEdge a b dup).1 (k2.addEdge a b dup).1 :=
+  ⟨(Global.same_addEdge s w1 w2 ha b dup).2, (Global.same_addEdge s w1 w2 ha b dup).1⟩
+
+/-- non-vacuity of the two theorems above: duplicate live edges listed in reverse order in the cache -/
+example :
+    let k := run {} [.addNVertices 3, .addEdge 0 1 false, .addEdge 0 1 true, .swapEdge 0 1]
+    k.outOf 0 = [2, 0] ∧ k.findEdgeBU 0 1 = some 0 ∧ k.findEdgeScan 0 1 = some 0 ∧ k.findEdgeBU 1 2 = none := by decide
 
 /-- non-vacuity: a closed triangle is accepted, an open chain rejected with the state unchanged,
     and a tetrahedron's four halffaces pass `add_cell`'s check while three of them do not -/
